@@ -26,7 +26,7 @@ GEN = os.path.join(ROOT, 'coq', 'Gen')
 class Unsupported(Exception): pass
 
 # ------------------------------------------------------------------ tokenizer
-TOK = re.compile(r'\s+|//[^\n]*|/\*.*?\*/|(?P<t>vec!|=>|::|\.\.|<=|>=|==|!=|&&|\|\||[A-Za-z_][A-Za-z0-9_]*|[0-9]+|[{}()\[\],;:|.+\-*<>=&!?_])', re.S)
+TOK = re.compile(r'\s+|//[^\n]*|/\*.*?\*/|(?P<t>vec!|=>|::|\.\.|\+=|<=|>=|==|!=|&&|\|\||[A-Za-z_][A-Za-z0-9_]*|[0-9]+|[{}()\[\],;:|.+\-*<>=&!?_])', re.S)
 def tokenize(text):
     out = []; pos = 0
     while pos < len(text):
